@@ -55,7 +55,7 @@ Judge1(r) ==
       o == IF Operator(r.op) /\ o0.r = "panic" THEN [o0 EXCEPT !.r = "none"] ELSE o0
       heap == r.backend = "heap"
       val == Meaning(r)
-  IN IF o.r = "panic" THEN "panicked"
+  IN IF o.r \in {"panic", "hang"} THEN "panicked"
      ELSE IF ~InDomain(r) THEN "out of domain"
      ELSE IF Mutating(r.op) THEN
         IF o.r = "ok" THEN (IF ValueOfVec(o.v) = val /\ (heap \/ Len(o.v) <= CAP) THEN "exact" ELSE "wrong value")
@@ -100,7 +100,7 @@ ModelOut(r) ==
     [] OTHER -> [v |-> r.res.v, r |-> r.res.r]
 
 Drift(r) ==
-  IF ~Mutating(r.op) \/ r.op = "bigint_pow10" \/ r.res.r = "panic" \/ Len(r.x) * Max2(Len(r.y), 1) > ModelLimit
+  IF ~Mutating(r.op) \/ r.op = "bigint_pow10" \/ r.res.r \in {"panic", "hang"} \/ Len(r.x) * Max2(Len(r.y), 1) > ModelLimit
      \/ (r.op \in {"pow5", "bigint_pow5"} /\ Len(r.x) * r.n > 6000) THEN "unmodelled"
   ELSE LET m == ModelOut(r) IN
        IF m.r = "maybe" THEN "conforms"
